@@ -15,8 +15,18 @@ use std::sync::Arc;
 
 pub type SimFile = File<Vec<u8>, SimObjCache, SimStmCache, SimLog>;
 
+/// Parse options as four bits: 1 = allow_error_in_option, 2 = allow_xref_error, 4 = allow_invalid_ops,
+/// 8 = allow_missing_endobj. `ParseOptions::strict()` is 4, `ParseOptions::tolerant()` is 15.
+pub const OPTS_STRICT: u8 = 4;
+pub const OPTS_TOLERANT: u8 = 15;
+pub fn opts_from_bits(bits: u8) -> ParseOptions {
+    ParseOptions { allow_error_in_option: bits & 1 != 0, allow_xref_error: bits & 2 != 0, allow_invalid_ops: bits & 4 != 0, allow_missing_endobj: bits & 8 != 0 }
+}
 pub fn open(bytes: &[u8], ctl: &Arc<SimCtl>, tolerant: bool, password: &[u8]) -> Result<SimFile, PdfError> {
-    let opts = if tolerant { ParseOptions::tolerant() } else { ParseOptions::strict() };
+    open_opts(bytes, ctl, if tolerant { OPTS_TOLERANT } else { OPTS_STRICT }, password)
+}
+pub fn open_opts(bytes: &[u8], ctl: &Arc<SimCtl>, bits: u8, password: &[u8]) -> Result<SimFile, PdfError> {
+    let opts = opts_from_bits(bits);
     FileOptions::uncached()
         .cache(SimObjCache(ctl.clone()), SimStmCache(ctl.clone()))
         .log(SimLog(ctl.clone()))
